@@ -47,12 +47,19 @@ class Run:
 
     # ---------------------------------------------------------------- harness
     def build_harness(self, race=False):
+        """Builds the harness against /repo's current working tree with the hooks enabled. VERIF_REPO (used only by
+        the seeded-change tooling) points the build at a scratch copy of the repository instead."""
         out = os.path.join(self.work, "vharness" + ("_race" if race else ""))
         env = dict(os.environ, **GOENV)
-        sumfile = os.path.join(HARNESS, "go.sum")
-        shutil.copy("/repo/go.sum", sumfile)
+        repo = os.environ.get("VERIF_REPO") or "/repo"
+        src = os.path.join(self.work, "harness_src")
+        if not os.path.isdir(src):
+            shutil.copytree(HARNESS, src, ignore=shutil.ignore_patterns("go.sum"))
+            gm = open(os.path.join(src, "go.mod")).read().replace("=> /repo", "=> " + repo)
+            open(os.path.join(src, "go.mod"), "w").write(gm)
+            shutil.copy(os.path.join(repo, "go.sum"), os.path.join(src, "go.sum"))
         cmd = ["go", "build", "-tags", "verif"] + (["-race"] if race else []) + ["-o", out, "./cmd/vharness"]
-        p = subprocess.run(cmd, cwd=HARNESS, env=env, capture_output=True, text=True)
+        p = subprocess.run(cmd, cwd=src, env=env, capture_output=True, text=True)
         if p.returncode != 0:
             raise Infra("harness does not build against /repo:\n" + p.stdout + p.stderr)
         if not race:
@@ -223,7 +230,7 @@ class Run:
             key = ("crash", c.get("case", "?"))
             viol.setdefault(key, dict(kind="crash", check="crash", case=c.get("case", "?"), what=c.get("what", ""), lines=[]))
         reported, known_hits = [], []
-        rdir = os.path.join(VERIF, "replays", self.prop)
+        rdir = os.path.join(VERIF, "replays", self.prop + os.environ.get("VERIF_EVIDENCE_SUFFIX", ""))
         for key, v in sorted(viol.items()):
             inp = self.inputs.get(v["case"])
             v["input"] = inp
@@ -277,7 +284,10 @@ class Run:
         ev = dict(property_id=self.prop, tier=self.tier, seed=self.seed, level="model_checking", coverage=cov,
                   assumptions=assumptions, wall_s=round(time.time() - self.t0, 2), violations=len(reported))
         os.makedirs(os.path.join(VERIF, "evidence"), exist_ok=True)
-        json.dump(ev, open(os.path.join(VERIF, "evidence", self.prop + ".json"), "w"), indent=1, default=str)
+        suffix = os.environ.get("VERIF_EVIDENCE_SUFFIX", "")   # seeded-change runs keep the real evidence intact
+        evdir = os.path.join(VERIF, "evidence") if not suffix else os.path.join(VERIF, ".work", "evidence" + suffix)
+        os.makedirs(evdir, exist_ok=True)
+        json.dump(ev, open(os.path.join(evdir, self.prop + ".json"), "w"), indent=1, default=str)
         if self.drift:
             log("NOTE property=%s model drift: %d recorded step(s) differ from the operational model although "
                 "no clause of the property failed there (not a verdict)" % (self.prop, self.drift))
@@ -290,6 +300,9 @@ class Run:
 
     def cleanup(self):
         shutil.rmtree(self.work, ignore_errors=True)
+        sfx = os.environ.get("VERIF_EVIDENCE_SUFFIX", "")
+        if sfx:
+            shutil.rmtree(os.path.join(VERIF, ".work", "evidence" + sfx), ignore_errors=True)
         try:
             os.rmdir(os.path.join(VERIF, ".work"))
         except OSError:
